@@ -621,7 +621,7 @@ def describe_case(case):
 # cuts THROUGH a marked single bond: the slash is written between the double-bond atom and its
 # descriptor (C=C/[$x]); no stereo expectation is attached, only the generator-independent invariants
 
-def random_marked_cut_case(rng):
+def random_marked_cut_case(rng, both_sides=False):
     from ..gen import stereo as S
     for _ in range(50):
         res = S.gen_stereo_molecule(rng, n_chiral=0)
@@ -656,7 +656,9 @@ def random_marked_cut_case(rng):
         return None
     frags = {}
     for i, comp in enumerate(comps):
-        r = M.render_fragment(rng, g, sorted(comp), desc, opts={'explicit_single': 0.0, 'leading': False, 'desc_pos': 'after'})
+        lig_here = [lig for (lig, anc) in pairs if frozenset((lig, anc)) in label_of and lig in comp]
+        start_ = rng.choice(lig_here) if (both_sides and lig_here) else None
+        r = M.render_fragment(rng, g, sorted(comp), desc, start=start_, opts={'explicit_single': 0.0, 'leading': bool(start_ is not None), 'desc_pos': 'after'})
         idx = {n: k for k, n in enumerate(r['atoms'])}
         # intact marked pairs of this fragment get a slash between the two atoms; for a cut pair the
         # slash goes in front of the descriptor on the double-bond atom
@@ -669,12 +671,20 @@ def random_marked_cut_case(rng):
             elif lig in idx and anc in idx:
                 child_tok[lig if idx[lig] > idx[anc] else anc] = tok
         out = []
+        first_atom_seen = False
         for t in r['tokens']:
             if t[0] == 'atom' and t[2] in child_tok:
                 out.append(child_tok[t[2]])
             if t[0] == 'desc' and (t[2], t[3][1]) in desc_tok:
                 out.append(desc_tok[(t[2], t[3][1])])
             out.append('(' if t[0] == 'open' else ')' if t[0] == 'close' else t[1])
+            # the substituent's side of the cut: leading descriptor of the fragment, then the same slash
+            if both_sides and t[0] == 'desc' and not first_atom_seen and t[2] == start_:
+                for (lig, anc) in pairs:
+                    if lig == start_ and label_of.get(frozenset((lig, anc))) == t[3][1]:
+                        out.append(rng.choice(['/', '\\']))
+            if t[0] == 'atom':
+                first_atom_seen = True
         frags['F%d' % i] = ''.join(out)
     base = nx.Graph()
     order = list(range(len(comps)))
@@ -688,5 +698,6 @@ def random_marked_cut_case(rng):
     items = list(frags.items())
     rng.shuffle(items)
     return dict(kind='marked_cut', base_string=G.to_string(ast), frag_string='{' + ','.join('#%s=%s' % kv for kv in items) + '}',
-                ctor='string', features=['cut_through_marked_single_bond', 'double_bonds_%d' % len(stereo)],
+                base_graph={'nodes': [[n, base.nodes[n]['fragname']] for n in base.nodes], 'edges': [[a, b, d['order']] for a, b, d in base.edges(data=True)]},
+                ctor='string', features=['cut_through_marked_single_bond', 'double_bonds_%d' % len(stereo)] + (['slash_on_both_sides'] if both_sides else []),
                 nheavy=len(g), nfrag=len(comps))
